@@ -66,9 +66,13 @@ impl Circuit {
 /// tokio::sync::Mutex: R8 — `m.lock().await` becomes vx_lock(&m); a critical section is atomic, any
 /// contracted kernel operation of another task may have run in between (the guard gives no more than the type)
 pub struct Mutex<T> { pub id: Ghost<int>, pub mirror_id: Ghost<int>, pub p: core::marker::PhantomData<T> }
+pub struct TryLockError {}
 impl Mutex<Circuit> {
     #[verifier::external_body]
     pub fn new(c: Circuit) -> (r: Mutex<Circuit>) ensures r.mirror_id == c.mirror_id { unimplemented!() }
+    /// try_lock may fail whenever another task holds the lock
+    #[verifier::external_body]
+    pub fn try_lock(&self) -> (r: Result<&mut Circuit, TryLockError>) ensures r matches Ok(c) ==> c.mirror_id == self.mirror_id { unimplemented!() }
 }
 #[verifier::external_body]
 pub fn vx_lock<'a, Req, Res, E>(m: &'a Arc<Mutex<Circuit>>, Tracked(tr): Tracked<&mut Trace<Req, Res, E>>) -> (r: &'a mut Circuit)
@@ -222,7 +226,7 @@ impl<Req, Res, E> CircuitBreaker<Req, Res, E> {
             !final(tr).admitted ==> final(tr).calls == 0 && result == Err::<Res, CircuitBreakerError<E>>(CircuitBreakerError::OpenCircuit),   // #rejected_call_never_reaches_inner_and_gets_open_circuit_error [C03]
             result matches Err(CircuitBreakerError::OpenCircuit) ==> !final(tr).admitted && final(tr).calls == 0,   // #open_circuit_error_only_when_rejected [C03,C20]
             final(tr).admitted ==> final(tr).calls == 1 && final(tr).done == 1 && final(tr).last_req == Some(req),   // #admitted_call_forwarded_once_unchanged [C20]
-            final(tr).admitted ==> count_records(final(tr).notes) == 1 && (final(tr).notes.last() matches Note::Record { failure, .. } && failure == classify_spec(old(self).config.failure_classifier, final(tr).last_done->0)),   // #records_the_classified_outcome_once [C04]
+            final(tr).admitted ==> count_records(final(tr).notes) == 1 && (final(tr).notes.last() matches Note::Record { failure, .. } && failure == classify_spec(old(self).config.failure_classifier, final(tr).last_done->0)),   // #records_the_classified_outcome_once [C04,C09]
             !final(tr).admitted ==> count_records(final(tr).notes) == 0,   // #rejected_call_records_nothing [C04]
             result matches Ok(v) ==> final(tr).last_done == Some(Ok::<Res, E>(v)),   // #response_returned_unchanged [C20]
             result matches Err(CircuitBreakerError::Inner(e)) ==> final(tr).last_done == Some(Err::<Res, E>(e)),   // #inner_error_returned_unchanged [C20]
@@ -274,7 +278,7 @@ impl<Req, Res, E> CircuitBreakerWithFallback<Req, Res, E> {
             !final(tr).admitted ==> final(tr).calls == 0 && final(tr).fb_calls == 1 && final(tr).fb_req == Some(req),   // #rejected_call_goes_to_the_fallback_with_the_same_request [C03]
             !final(tr).admitted ==> (match final(tr).fb_done->0 { Ok(v) => result == Ok::<Res, CircuitBreakerError<E>>(v), Err(e) => result == Err::<Res, CircuitBreakerError<E>>(CircuitBreakerError::Inner(e)) }),   // #rejected_call_answered_by_the_fallback [C03]
             final(tr).admitted ==> final(tr).fb_calls == 0 && final(tr).calls == 1 && final(tr).done == 1 && final(tr).last_req == Some(req),   // #admitted_call_forwarded_once_unchanged_no_fallback [C03,C20]
-            final(tr).admitted ==> count_records(final(tr).notes) == 1 && (final(tr).notes.last() matches Note::Record { failure, .. } && failure == classify_spec(old(self).config.failure_classifier, final(tr).last_done->0)),   // #records_the_classified_outcome_once [C04]
+            final(tr).admitted ==> count_records(final(tr).notes) == 1 && (final(tr).notes.last() matches Note::Record { failure, .. } && failure == classify_spec(old(self).config.failure_classifier, final(tr).last_done->0)),   // #records_the_classified_outcome_once [C04,C09]
             !final(tr).admitted ==> count_records(final(tr).notes) == 0,   // #rejected_call_records_nothing [C04]
             final(tr).admitted ==> (match final(tr).last_done->0 { Ok(v) => result == Ok::<Res, CircuitBreakerError<E>>(v), Err(e) => result == Err::<Res, CircuitBreakerError<E>>(CircuitBreakerError::Inner(e)) }),   // #outcome_returned_unchanged [C20]
             final(self).circuit == old(self).circuit && final(self).state_atomic == old(self).state_atomic && final(self).config == old(self).config,   // #keeps_shared_state [C03]
